@@ -113,8 +113,18 @@ def eps_flow(model: Model, caller_short: str, callee_q: str, eps_param="eps", po
         for kw in call.keywords:
             if kw.arg == "eps":
                 arg = kw.value
-        if arg is None and idx is not None and idx < len(call.args):
+        starred = any(isinstance(a, ast.Starred) for a in call.args)
+        if arg is None and idx is not None and idx < len(call.args) and not starred:
             arg = call.args[idx]
+        if arg is None and starred:
+            # f(a, *pair, eps, ...): positions after an unpacked sequence are not known - the argument that carries the caller's tolerance
+            cands = [a for a in call.args if not isinstance(a, ast.Starred) and any(isinstance(x, ast.Name) and x.id == eps_param for x in ast.walk(a))]
+            if len(cands) == 1:
+                arg = cands[0]
+            else:
+                obs.append(Ob(rule, f"{caller_short}:{rule}:{callee_q.rsplit('.', 1)[-1]}({norm(call)[:40]})", ERROR, model.where(f, call), norm(call)[:100],
+                              "the call unpacks a sequence into positional arguments: which argument is the tolerance is not decided"))
+                continue
         if arg is None and idx is None:
             # the callee's parameter is not called `eps` (renamed): the argument that carries the caller's tolerance
             cands = [a for a in list(call.args) + [kw.value for kw in call.keywords]
